@@ -38,7 +38,9 @@ def do_import(prop, src, name):
 def run_demo(scratch, d, env):
     """Stage the seeded directory as <scratch>/_out/1 (the layout the demonstrations were written for)
     and run it; returns (ran, passed, tail)."""
-    stage = os.path.join(scratch, "_out", "1")
+    idx = os.path.basename(d).rsplit("-", 1)[-1]
+    idx = idx if idx.isdigit() else "1"
+    stage = os.path.join(scratch, "_out", idx)
     shutil.rmtree(os.path.join(scratch, "_out"), ignore_errors=True)
     shutil.copytree(d, stage)
     extra = ""
@@ -46,7 +48,7 @@ def run_demo(scratch, d, env):
         extra = open(os.path.join(d, "demo_args.txt")).read().strip()
     try:
         if os.path.exists(os.path.join(d, "demo.sh")):
-            p = subprocess.run(["bash", "-c", "sh _out/1/demo.sh . > _out/demo.log 2>&1; echo $? > _out/demo.rc"], cwd=scratch, env=env)
+            p = subprocess.run(["bash", "-c", f"sh _out/{idx}/demo.sh . > _out/demo.log 2>&1; echo $? > _out/demo.rc"], cwd=scratch, env=env)
             rc = int(open(os.path.join(scratch, "_out", "demo.rc")).read().strip() or 1)
             out = open(os.path.join(scratch, "_out", "demo.log")).read()
             return True, rc == 0, out[-600:]
@@ -54,7 +56,7 @@ def run_demo(scratch, d, env):
             shutil.copy(os.path.join(d, "demo.rs"), os.path.join(scratch, "tests", "zz_demo.rs"))
             rc, out = sh(f"cargo test --offline {extra} --test zz_demo 2>&1 | tail -15", scratch, env)
             os.remove(os.path.join(scratch, "tests", "zz_demo.rs"))
-            passed = "test result: ok" in out and "FAILED" not in out and "error" not in out
+            passed = "test result: ok" in out and "test result: FAILED" not in out and not any(l.startswith("error") for l in out.splitlines())
             return True, passed, out[-600:]
         return False, None, "no runnable demonstration"
     finally:
